@@ -86,7 +86,7 @@ class SymEnv:
         tb = traceback.extract_tb(exc.__traceback__)
         where = " <- ".join(f"{f.filename.split('/')[-1]}:{f.lineno}" for f in reversed(tb[-4:]))
         self.violations.append(
-            {"label": label, "assignment": self._assignment(m or {}), "info": f"{exc!r} @ {where}"[:400]}
+            {"label": label, "assignment": self._assignment(m or {}), "info": f"{exc!r} @ {where} ctx={getattr(self, 'ctx', '')}"[:500]}
         )
 
     def observe(self, name, value):
@@ -184,7 +184,7 @@ class ConcEnv:
     def crash(self, exc):
         tb = traceback.extract_tb(exc.__traceback__)
         where = " <- ".join(f"{f.filename.split('/')[-1]}:{f.lineno}" for f in reversed(tb[-4:]))
-        self.failures.append({"label": "crash:" + builtins.type(exc).__name__, "info": f"{exc!r} @ {where}"[:400]})
+        self.failures.append({"label": "crash:" + builtins.type(exc).__name__, "info": f"{exc!r} @ {where} ctx={getattr(self, 'ctx', '')}"[:500]})
 
     def observe(self, name, value):
         self.observables[name] = value
@@ -417,7 +417,8 @@ def report(mod, tier, seed, worlds, results, t0, a):
             funcs.update(map(tuple, o["funcs"]))
             for v in o["violations"]:
                 viol.append((i, v))
-        per_world.append({"world": worlds[i]["name"], "paths": wp, "jobs": len(outs)})
+        per_world.append({"world": worlds[i]["name"], "paths": wp, "jobs": len(outs),
+                          "cpu_s": round(sum(o["wall"] for o in outs), 1), "max_job_s": max((o["wall"] for o in outs), default=0)})
     complete_paths = status.get("ok", 0) + status.get("budget", 0)
     # ---- vacuity / soundness guards
     harness_errors = []
@@ -447,31 +448,36 @@ def report(mod, tier, seed, worlds, results, t0, a):
     seen_sig = set()
     replays = 0
     max_replays = getattr(mod, "MAX_REPLAYS", 40)
-    viol.sort(key=lambda iv: (iv[1]["label"], iv[0]))
-    per_label = {}
+    # group by (pre-replay) signature; replay up to 3 members of each group until one reproduces
+    groups = {}
     for i, v in viol:
-        per_label[v["label"]] = per_label.get(v["label"], 0) + 1
-        if per_label[v["label"]] > 8 or replays >= max_replays:
-            continue
-        w = worlds[i]
-        replays += 1
-        ok, failures, err = replay_concrete(mod.__name__, w, v["assignment"], v["label"])
-        if err:
-            nonrepro.append({"world": w["name"], "label": v["label"], "error": err[-600:], "assignment": v["assignment"]})
-            continue
-        if not ok:
-            nonrepro.append({"world": w["name"], "label": v["label"], "failures": failures, "assignment": v["assignment"]})
-            continue
-        sig = mod.signature(w, v, failures) if hasattr(mod, "signature") else v["label"]
+        sig = mod.signature(worlds[i], v, None) if hasattr(mod, "signature") else v["label"]
+        groups.setdefault(sig, []).append((i, v))
+    for sig, members in sorted(groups.items()):
+        members.sort(key=lambda iv: (len(json.dumps(iv[1]["assignment"])), iv[0]))
         kn = next((k for k in known if k["signature"] == sig), None)
-        if kn:
-            known_hit.setdefault(sig, {"finding": kn, "example": {"world": w["name"], "assignment": v["assignment"]}, "count": 0})["count"] += 1
-            continue
-        if sig in seen_sig:
-            continue
-        seen_sig.add(sig)
-        path = write_replay(pid, mod.__name__, w, v, sig)
-        reported.append({"signature": sig, "world": w["name"], "label": v["label"], "replay": path, "info": v.get("info")})
+        done = False
+        fails = []
+        for i, v in members[:3]:
+            w = worlds[i]
+            replays += 1
+            ok, failures, err = replay_concrete(mod.__name__, w, v["assignment"], v["label"])
+            if err:
+                fails.append({"world": w["name"], "label": v["label"], "error": err[-600:], "assignment": v["assignment"]})
+                continue
+            if not ok:
+                fails.append({"world": w["name"], "label": v["label"], "failures": failures, "assignment": v["assignment"]})
+                continue
+            done = True
+            if kn:
+                known_hit[sig] = {"finding": kn, "example": {"world": w["name"], "assignment": v["assignment"]}, "count": len(members)}
+            else:
+                path = write_replay(pid, mod.__name__, w, v, sig)
+                reported.append({"signature": sig, "world": w["name"], "label": v["label"], "replay": path, "info": v.get("info"),
+                                 "count": len(members)})
+            break
+        if not done:
+            nonrepro += fails
     if nonrepro:
         harness_errors.append("counterexample did not reproduce concretely: " + json.dumps(nonrepro[:2])[:800])
     wall = time.time() - t0
@@ -509,6 +515,9 @@ def report(mod, tier, seed, worlds, results, t0, a):
           f"decisions={tot['decisions']} queries={tot['queries']} solver_s={tot['solver_s']:.1f} "
           f"validated={tot['validated']} replays={replays} wall={wall:.1f}s status={status}")
     print(f"[{pid}] obligations: {checked}")
+    if os.environ.get("VERIF_VERBOSE"):
+        for pw in sorted(per_world, key=lambda x: -x["cpu_s"])[:12]:
+            print("   ", pw)
     for s, d in known_hit.items():
         print(f"KNOWN-FINDING: property={pid} {d['finding'].get('description', s)} [{s}] (hit on {d['count']} counterexample(s))")
     for r in reported:
